@@ -524,9 +524,132 @@ def _from_json(t):
     return tuple(_from_json(x) if isinstance(x, list) else x for x in t)
 
 
+# ---------------------------------------------------------------------------
+# blocked-operator construction: explicit-state search over assignment histories
+# ---------------------------------------------------------------------------
+def blocked_assignment_history(ctx, pool, hist):
+    """Replay one history of blk[i, j] = op assignments on a fresh 2x2 BlockedOperator against the typed model."""
+    bem = pool.bem
+    blk = bem.BlockedOperator(2, 2)
+    rows = [None, None]   # (range, dual) fixed by the first accepted assignment in the row (re-set by every accepted one)
+    cols = [None, None]
+    cells = {}
+    case = {"sub": "blocked-assignment", "history": [list(h) for h in hist]}
+    for step, (i, j, nm) in enumerate(hist):
+        d, r, du = pool.ref[nm][1]
+        ok = (rows[i] is None or rows[i] == (r, du)) and (cols[j] is None or cols[j] == d)
+        try:
+            blk[i, j] = pool.lib[nm]
+            raised = None
+        except ValueError as exc:
+            raised = exc
+        except Exception as exc:  # noqa: BLE001
+            ctx.violation("blocked-assignment/exception:%s" % type(exc).__name__, case, "step %d raised %r" % (step, exc))
+            return None
+        if ok and raised is not None:
+            ctx.violation("blocked-assignment/rejected", case, "step %d: blk[%d,%d] = %s is compatible with the spaces fixed so far but raised %r" % (step, i, j, nm, raised))
+            return None
+        if not ok and raised is None:
+            ctx.violation("blocked-assignment/accepted", case, "step %d: blk[%d,%d] = %s conflicts with the spaces fixed by earlier entries but was accepted" % (step, i, j, nm))
+            return None
+        if raised is None:
+            rows[i], cols[j] = (r, du), d
+            cells[(i, j)] = nm
+            ctx.cover("blocked_assignments_accepted", None)
+        else:
+            ctx.cover("blocked_assignments_rejected", None)
+    complete = all(rw is not None for rw in rows) and all(c is not None for c in cols)
+    if complete:
+        layout = [[cells.get((i, j)) for j in range(2)] for i in range(2)]
+        want = pool._blk_ref(layout)
+        try:
+            got = np.asarray(blk.weak_form().to_dense())
+            for (i, j) in [(a, b) for a in range(2) for b in range(2)]:
+                comp = blk[i, j]
+                cd, cr, cdu = (cols[j], rows[i][0], rows[i][1])
+                if not (comp.domain.is_compatible(pool.S[cd]) and comp.range.is_compatible(pool.S[cr]) and comp.dual_to_range.is_compatible(pool.S[cdu])):
+                    ctx.violation("blocked-assignment/component-spaces", case, "blk[%d,%d] reports spaces other than (%s,%s,%s)" % (i, j, cd, cr, cdu))
+        except Exception as exc:  # noqa: BLE001
+            ctx.violation("blocked-assignment/assembly:%s" % type(exc).__name__, case, "complete blocked operator raised %r" % (exc,))
+            return (tuple(rows), tuple(cols), tuple(sorted(cells.items())))
+        ctx.check_close("blocked-assignment/matrix", case, got, want[2], TOL, "algebra:blocked", scale=float(np.max(np.abs(want[2]))) or 1.0)
+        ctx.cover("blocked_complete_assembled", None)
+    else:
+        try:
+            blk.weak_form()
+            ctx.violation("blocked-assignment/incomplete-accepted", case, "a blocked operator with an empty row or column produced a weak form")
+        except ValueError:
+            pass
+        except Exception as exc:  # noqa: BLE001
+            ctx.violation("blocked-assignment/incomplete:%s" % type(exc).__name__, case, "incomplete blocked operator raised %r instead of ValueError" % (exc,))
+    return (tuple(rows), tuple(cols), tuple(sorted(cells.items())))
+
+
+def blocked_construction(ctx, pool, depth):
+    import collections
+
+    events = [(i, j, nm) for i in range(2) for j in range(2) for nm in LEAVES["bop"]]
+    seen = set()
+    frontier = collections.deque([()])
+    while frontier:
+        hist = frontier.popleft()
+        if len(hist) >= depth:
+            continue
+        for ev in events:
+            h2 = hist + (ev,)
+            canon = blocked_assignment_history(ctx, pool, h2)
+            ctx.transitions += 1
+            ctx.case(("blk-assign", h2), sub="blocked-assignment")
+            if canon is None or canon in seen:
+                continue
+            seen.add(canon)
+            ctx.states += 1
+            frontier.append(h2)
+    # generalized blocked operators: every 2x2 arrangement of pool operators
+    import itertools
+
+    bem = pool.bem
+    names = LEAVES["bop"]
+    for a, b, c, d in itertools.product(names, repeat=4):
+        layout = [[a, b], [c, d]]
+        t = {k: pool.ref[k][1] for k in (a, b, c, d)}
+        ok = (t[a][1:] == t[b][1:] and t[c][1:] == t[d][1:] and t[a][0] == t[c][0] and t[b][0] == t[d][0])
+        case = {"sub": "generalized-blocked", "layout": layout}
+        try:
+            G = bem.GeneralizedBlockedOperator([[pool.lib[a], pool.lib[b]], [pool.lib[c], pool.lib[d]]])
+            M = np.asarray(G.weak_form().to_dense()) if ok else None
+            if not ok:
+                # lazily rejected is fine; numbers are not
+                try:
+                    np.asarray(G.weak_form().to_dense())
+                    ctx.violation("generalized-blocked/accepted", case, "incompatible arrangement produced a matrix")
+                except Exception:  # noqa: BLE001
+                    pass
+        except ValueError as exc:
+            if ok:
+                ctx.violation("generalized-blocked/rejected", case, "compatible arrangement raised %r" % (exc,))
+            ctx.cover("generalized_rejected", None)
+            ctx.transitions += 1
+            ctx.case(("gen-blk", a, b, c, d), sub="generalized-blocked")
+            continue
+        except Exception as exc:  # noqa: BLE001
+            ctx.violation("generalized-blocked/exception:%s" % type(exc).__name__, case, repr(exc))
+            continue
+        ctx.transitions += 1
+        ctx.case(("gen-blk", a, b, c, d), sub="generalized-blocked")
+        if ok:
+            want = pool._blk_ref(layout)[2]
+            ctx.check_close("generalized-blocked/matrix", case, M, want, TOL, "algebra:generalized-blocked", scale=float(np.max(np.abs(want))) or 1.0)
+            ctx.cover("generalized_accepted", None)
+
+
 def run(ctx):
     quick = ctx.tier == "quick"
     pool = Pool(ctx.seed)
+    blocked_construction(ctx, pool, 2 if quick else 3)
+    ctx.require(ctx.cov.get("blocked_assignments_rejected", 0) > 0 and ctx.cov.get("blocked_complete_assembled", 0) > 0 and
+                ctx.cov.get("generalized_accepted", 0) > 0 and ctx.cov.get("generalized_rejected", 0) > 0,
+                "blocked construction: accepted, rejected and assembled cases all present")
     scalars = SCALARS if not quick else SCALARS[:4]
     ts = terms(2 if quick else 2, scalars)
     if not quick:
@@ -556,4 +679,10 @@ def run(ctx):
 
 def replay(ctx, case):
     pool = Pool(ctx.seed)
+    if case.get("sub") == "blocked-assignment":
+        blocked_assignment_history(ctx, pool, [tuple(h) for h in case["history"]])
+        return
+    if case.get("sub") == "generalized-blocked":
+        blocked_construction(ctx, pool, 0)
+        return
     check_term(ctx, pool, _from_json(case["term"]))
